@@ -162,6 +162,20 @@ def eval_point(acc, arm, ref, case, th):
                 W = np.concatenate([np.cross(p, a3._link_masses[l] * g), a3._link_masses[l] * g])
                 add[k] += J_or[:, k] @ W
         flag("link_weight_moments", rel(t_with - t_plain, add), 1e-8 * max(1.0, float(np.abs(add).max())))
+        # the same with one intermediate link massless (a spacer / flange): its own weight vanishes, the weights beyond it do not
+        a4 = copy.deepcopy(arm)
+        m0 = np.array(a4._link_masses, float).copy()
+        kz = max(1, n // 2 + 1)
+        m0[kz] = 0.0
+        a4.setMassProperties(link_masses=m0)
+        t0 = np.asarray(a4.staticForcesWithLinkMasses(Wrench(Fv.copy()), th.copy()), float).reshape(-1)
+        add0 = np.zeros(n)
+        for k in range(n):
+            for l in range(k + 1, n + 1):
+                p = (frames[l] @ a3._link_mass_grav_centers[l].gTM())[:3, 3]
+                W = np.concatenate([np.cross(p, m0[l] * g), m0[l] * g])
+                add0[k] += J_or[:, k] @ W
+        flag("link_weight_moments", rel(t0 - t_plain, add0), 1e-8 * max(1.0, float(np.abs(add0).max())), flags={"massless_link": int(kz)})
 
 
 def eval_pairs(acc, arm, ref, case, th):
@@ -267,7 +281,8 @@ def work(p):
             continue
         for tn, th in pts.items():
             case = {"arm": an, "history": list(H[hi]), "theta": tn}
-            thc = ref.clamp(th)
+            # strictly inside the limits: the derivative clauses step 2e-4 to either side, and FK clamps at the limits
+            thc = np.minimum(np.maximum(ref.clamp(th), ref.lo + 1e-3), ref.hi - 1e-3)
             try:
                 eval_point(acc, arm, ref, case, thc)
                 if len(H[hi]) <= 1 and tn in ("g1", "q"):
@@ -305,9 +320,10 @@ def replay(rec):
         arm, ref = apply_hist(arm, ref, tuple(c["history"]), TH)
         pts = theta_points(ref, rec.get("seed", 0))
         if c.get("theta"):
-            eval_point(acc, arm, ref, c, ref.clamp(pts[c["theta"]]))
+            thc = np.minimum(np.maximum(ref.clamp(pts[c["theta"]]), ref.lo + 1e-3), ref.hi - 1e-3)
+            eval_point(acc, arm, ref, c, thc)
             if c.get("pair"):
-                eval_pairs(acc, arm, ref, {k: v for k, v in c.items() if k != "pair"}, ref.clamp(pts[c["theta"]]))
+                eval_pairs(acc, arm, ref, {k: v for k, v in c.items() if k not in ("pair", "advanced")}, thc)
     except Exception as e:
         acc.violation("raised", c, repr(e))
     return [v for v in acc.viols if v["clause"] == rec["clause"] and (not c.get("pair") or v["case"].get("pair") == c.get("pair"))]
